@@ -2709,8 +2709,11 @@ class Parameters:
         # flag up or the Event parameters in 'set' mode)
         BATCH_WATCH = self_._BATCH_WATCH
         self_._BATCH_WATCH = True
-        for tp in trigger_params:
-            self_[tp]._mode = 'set'
+        # (the Parameter objects are remembered: a class-level update through
+        # a subclass that inherits the Event replaces self_[tp] by a copy)
+        trigger_pobjs = [self_[tp] for tp in trigger_params]
+        for p in trigger_pobjs:
+            p._mode = 'set'
 
         try:
             try:
@@ -2732,6 +2735,8 @@ class Parameters:
                 p = self_[tp]
                 p._mode = 'reset'
                 setattr(self_or_cls, tp, p._autotrigger_reset_value)
+                p._mode = 'set-reset'
+            for p in trigger_pobjs:
                 p._mode = 'set-reset'
         return restore
 
